@@ -186,9 +186,12 @@ func newThunk(b *bytecode, retK *types.Type) *val.Val {
 
 func (b *bytecode) compileInvokeDynamic(c *Compiler, call *ast.CallExpr, env *val.Env) {
 	b.compile(c, call.Callee, env)
-	// dynamic 不支持 lazy
-	for _, arg := range call.Args {
-		b.compile(c, arg, env)
+	// callee 运行时才知道是否 lazy, 所以实参统一编译成 thunk,
+	// 运行时: lazy 函数直接拿 thunk, 否则按顺序求值 (与 closure / interp 一致)
+	params := call.CalleeType.(*types.Type).Fun().Param
+	for i, arg := range call.Args {
+		b.emitOP(OP_CONST)
+		b.emitConst(newThunk(c.Compile(arg, env), params[i]))
 	}
 	b.emitOP(OP_DYNAMIC_CALL)
 	b.emitUint8(len(call.Args)) // 参数最多 256
